@@ -35,6 +35,8 @@ type cfg struct {
 	Events    int  // max number of non-tick events in a history
 	WriteFail bool // the first datagram write fails with a transient error (the call returns an error at once)
 	Deadline  bool // the request context carries a deadline far beyond the retransmission span (instead of a plain cancel context)
+	Eager     bool // the peer's piggybacked response is processed as soon as the first copy is on the wire (any scheduling point after the write)
+	FailCopy  int  // >0: the write of copy number FailCopy (1 = first retransmission) fails with a transient error
 	DTLS      bool // over the real dtls/server.Session
 	BodyPeek  bool // the request has a payload whose reader the application has already read 4 bytes of
 }
@@ -49,6 +51,12 @@ func (c cfg) String() string {
 	}
 	if c.DTLS {
 		x += " transport=dtls-session"
+	}
+	if c.Eager {
+		x += " eager-peer"
+	}
+	if c.FailCopy > 0 {
+		x += fmt.Sprintf(" write-of-copy-%d-fails", c.FailCopy)
 	}
 	return fmt.Sprintf("udp-conn CON Do: ACK_TIMEOUT=%v MAX_RETRANSMIT=%d NSTART=%d requests=%d events<=%d first-write-fails=%v%s", T, c.R, c.NStart, map[bool]int{false: 1, true: 2}[c.Two], c.Events, c.WriteFail, x)
 }
@@ -66,7 +74,7 @@ type reqState struct {
 func scenario(c cfg) *mcx.Scenario {
 	return &mcx.Scenario{
 		Name:   c.String(),
-		Bounds: mcx.Bounds{Preempt: 0, Env: -1, Select: 0},
+		Bounds: mcx.Bounds{Preempt: map[bool]int{false: 0, true: 2}[c.Eager], Env: -1, Select: 0},
 		Body: func(s *vrt.Sched) func() (string, []mcx.Finding) {
 			var hist []string
 			var fs []mcx.Finding
@@ -82,6 +90,21 @@ func scenario(c cfg) *mcx.Scenario {
 			t0 := vrt.Now()
 			vrt.App("env", func() {
 				w = udpw.New(udpw.Opts{NStart: c.NStart, MaxRetransmit: c.R, AckTimeout: T, LimitTotal: 4, LimitEndpoint: 4, DTLS: c.DTLS})
+				failedWrites := 0 // attempts that failed in the socket: they count as attempts, nothing reached the wire
+				if c.FailCopy > 0 {
+					copies := 0
+					w.Sess.WriteErr = func(m *pool.Message) error {
+						if m.Code() == codes.GET {
+							copies++
+							if copies == c.FailCopy+1 {
+								failedWrites++
+								hist = append(hist, fmt.Sprintf("(write of copy %d fails)", c.FailCopy))
+								return errors.New("sendmsg: no buffer space available")
+							}
+						}
+						return nil
+					}
+				}
 				if c.WriteFail {
 					failed := false
 					w.Sess.WriteErr = func(m *pool.Message) error {
@@ -141,6 +164,7 @@ func scenario(c cfg) *mcx.Scenario {
 				for i := range txs {
 					txs[i] = &tx{}
 				}
+				used := map[string]bool{}
 				scan := func() {
 					for _, o := range w.NewOuts() {
 						if o.M.Type != message.Confirmable || o.M.Code != codes.GET {
@@ -163,7 +187,7 @@ func scenario(c cfg) *mcx.Scenario {
 								if k >= 1 && !o.At.After(t.copies[0].At.Add(time.Duration(k)*T)) {
 									fail("retransmission-too-early", "copy %d of request %d sent %v after the first, must be later than %v", k, i, o.At.Sub(t.copies[0].At), time.Duration(k)*T)
 								}
-								if t.stopped {
+								if t.stopped && !(c.Eager && k == 0) { // (eager peer: copy 0 is on the wire before the peer's answer by construction)
 									fail("copy-after-stop", "request %d retransmitted (copy %d) after an acknowledgement/reset/cancellation/return", i, k)
 								}
 								if c.NStart == 1 && c.Two && k == 0 {
@@ -181,13 +205,24 @@ func scenario(c cfg) *mcx.Scenario {
 						}
 					}
 				}
+				if c.Eager {
+					// the peer answers at once: its piggybacked response is processed at whatever point the scheduler
+					// lets this thread run after the first copy has been written
+					vrt.App("eager-peer", func() {
+						vrt.WaitUntil("first copy on the wire", func() bool { return len(w.Outs) > 0 })
+						o := w.Outs[0]
+						hist = append(hist, "piggy0(at once)")
+						used["piggy0"] = true
+						txs[0].respSent, txs[0].acked, txs[0].stopped = true, true, true
+						_ = w.Inject(message.Message{Type: message.Acknowledgement, Code: codes.Content, MessageID: o.M.MessageID, Token: reqs[0].token, Payload: []byte("resp-0")})
+					})
+				}
 				// grid of tick instants: k*T -/+ delta, k = 1..R+2
 				var grid []time.Time
 				for k := 1; k <= int(c.R)+2; k++ {
 					grid = append(grid, t0.Add(time.Duration(k)*T-delta), t0.Add(time.Duration(k)*T+delta))
 				}
 				gi := 0
-				used := map[string]bool{}
 				events := 0
 				exhaustedBefore := make([]bool, nreq) // a housekeeping tick ran after the last permitted copy
 				for {
@@ -206,7 +241,7 @@ func scenario(c cfg) *mcx.Scenario {
 							if len(t.copies) == 0 {
 								continue
 							}
-							for _, n := range []string{"ack", "rst", "piggy", "sep", "cancel"} {
+							for _, n := range []string{"ack", "rst", "piggy", "sep", "cancel", "ackx2"} {
 								if !used[fmt.Sprint(n, i)] {
 									evs = append(evs, evt{n, i})
 								}
@@ -228,7 +263,7 @@ func scenario(c cfg) *mcx.Scenario {
 						w.TickAt(grid[gi])
 						gi++
 						for i, x := range txs {
-							if len(x.copies) == int(c.R)+1 && !x.stopped {
+							if len(x.copies)+failedWrites == int(c.R)+1 && !x.stopped {
 								exhaustedBefore[i] = true
 							}
 							if c.R == 0 && len(x.copies) == 1 && !x.stopped {
@@ -238,6 +273,12 @@ func scenario(c cfg) *mcx.Scenario {
 					case "ack":
 						hist = append(hist, fmt.Sprintf("ack%d", e.i))
 						t.acked, t.stopped = true, true
+						_ = w.Inject(message.Message{Type: message.Acknowledgement, Code: codes.Empty, MessageID: t.mid})
+					case "ackx2":
+						// the acknowledgement arrives twice back to back (duplicated by the network), before anybody else runs
+						hist = append(hist, fmt.Sprintf("ack%d,ack%d", e.i, e.i))
+						t.acked, t.stopped = true, true
+						_ = w.Inject(message.Message{Type: message.Acknowledgement, Code: codes.Empty, MessageID: t.mid})
 						_ = w.Inject(message.Message{Type: message.Acknowledgement, Code: codes.Empty, MessageID: t.mid})
 					case "rst":
 						hist = append(hist, fmt.Sprintf("rst%d", e.i))
@@ -313,6 +354,10 @@ func main() {
 	scs = append(scs, scenario(cfg{R: 2, NStart: 1, Events: 1, WriteFail: true}))
 	scs = append(scs, scenario(cfg{R: 2, NStart: 1, Events: ev.Pick(r, 2, 3), Deadline: true}))
 	scs = append(scs, scenario(cfg{R: 1, NStart: 1, Events: ev.Pick(r, 2, 3), DTLS: true}))
+	scs = append(scs, scenario(cfg{R: 1, NStart: 1, Events: 0, Eager: true}))
+	for k := 1; k <= 2; k++ {
+		scs = append(scs, scenario(cfg{R: 3, NStart: 1, Events: ev.Pick(r, 1, 2), FailCopy: k}))
+	}
 	scs = append(scs, scenario(cfg{R: 1, NStart: 1, Events: ev.Pick(r, 1, 2), BodyPeek: true}))
 	for _, ns := range []uint32{1, 2} {
 		scs = append(scs, scenario(cfg{R: 1, NStart: ns, Two: true, Events: ev.Pick(r, 2, 3)}))
